@@ -117,3 +117,50 @@ def copy_isolation(v, tier, seed, name="python_copy_isolation"):
         "rule": "Python processes (custom partial state + mutable attribute outside it) in a simulation with and without a model-checking "
                 "run in the middle; all simulator observations must be identical"})
     return nviol
+
+
+def restore_probe(v, tier, seed, name="python_state_restore"):
+    """C18 "saving and restoring its state round-trips every attribute", implementation against itself: Python processes with the
+    library's default (pickle) state and an attribute that only exists after a timer fired (vscript.ScriptProcDefault.lazy).  DFS only
+    ever restores ancestors, BFS restores arbitrary earlier states, a staged run restores collected ones: without a visited cache all
+    of them must evaluate exactly the same states, *including* the processes' state texts."""
+    from . import mc_checks
+    from .common import run_blocks, VH, JOBS, chunks, STALL_S
+    from concurrent.futures import ThreadPoolExecutor
+    rng = random.Random(seed * 8191 + 29)
+    n = 40 if tier == "quick" else 600
+    combos = [("dfs", "disabled"), ("bfs", "disabled")]
+    scen = []
+    for i in range(n):
+        prof = mc_suite.profile(**dict(PROF, proc_kind="pyd", record=0.0, p_timer=0.5, p_send=0.3, p_local=0.1, p_cancel=0.1, two_runs=0, staged=0,
+                                       terminating=True, p_fault=0.0, p_crash=0.0, nodes=(1, 2), procs=(1, 2), depth=(2, 4)))
+        lines = mc_suite.gen_scenario(rng, prof)
+        lines = [l.replace(":$", ':="e"') if l.startswith("rule") and l.split()[3].startswith("T:") else l for l in lines]
+        lines = [re.sub(r"st:(p\d):\d", r"out:\1:1", l) if l.startswith(("run", "runfrom")) else l for l in lines]
+        scen.append((f"rp{i}", mc_checks.with_all_combos(lines, combos)))
+    parts = chunks([mc_suite.block(nm, l) for nm, l in scen], JOBS)
+    impl = {}
+    with ThreadPoolExecutor(max_workers=JOBS) as ex:
+        for o, rc, err in ex.map(lambda part: run_blocks([VH, "mc"], part, STALL_S), parts):
+            impl.update(o)
+    nviol = ncmp = ntimer = 0
+    for nm, lines in scen:
+        a = impl.get(nm, [])
+        if not a or any("capped" in l or "panic" in l or l.endswith("-timeout") for l in a):
+            continue
+        runs = mc_suite.split_runs(a)
+        if len(runs) < 2 or not all("result=ok" in r["hdr"] for r in runs):
+            continue
+        ncmp += 1
+        ntimer += any("tfired" in l or "T(" in l for l in a)
+        sets = [set(mc_suite.project(l, ["N", "E", "A"], False) for l in r["E"]) for r in runs]
+        if sets[0] != sets[1]:
+            nviol += 1
+            if nviol <= 3:
+                ex_ = sorted(sets[0] ^ sets[1])[:1]
+                v.violation(f"{name}-{nm}.txt", f"# property {v.pid}: DFS and BFS (no visited cache) evaluate different states of a system of Python processes with the "
+                            f"default state: restoring a saved state does not bring back exactly that state; e.g. {str(ex_)[:400]}\n"
+                            f"# replay: /verif/check {v.pid} --replay <this file>\n" + "".join(l + "\n" for l in lines))
+    v.coverage.setdefault(name, {}).update({"programs": ncmp, "programs_with_timers": ntimer, "violations": nviol,
+        "rule": "Python processes with pickle state and a lazily created attribute; dfs vs bfs without cache must evaluate identical states incl. state texts"})
+    return nviol
